@@ -246,7 +246,7 @@ PROPS["C20"] = {
 }
 
 PROPS["C09"] = {
-    "kani": ["c09_text", "c09_cellsize"],
+    "kani": ["c09_text", "c09_cellsize", "c09_fakeglyph"],
     "verus": ["celllayout", "putcell", "utf8stream", "textlayout", "ttywriter", "imagecells"],
     "technique": "Verus contracts on the single layout routine Cell::layout, on TerminalWriter::put_cell over the ghost window model of surfaces shared with C07 (frame condition), and on the streaming Utf8Decoder::decode against a byte-wise fold with chunk-independence lemmas; all extracted from the real code",
     "level_text": "Proved (Verus, every cell size, width, wrap mode, cursor and tracked size): Cell::layout keeps the writer invariant cursor.col <= max_width and size.width <= max_width, the tracked size is a "
@@ -265,11 +265,12 @@ PROPS["C09"] = {
                   "theorem_in_box: every cell that gets a position lies inside the measured size. Together with put_cell's contract: rendering into a surface of the size the layout reported places every positioned cell, none outside. "
                   "Text::layout / Text::render (Kani, bounded stand-ins on a two-cell text; Cell::layout resp. TerminalWriter::put_cell - both under Verus contract - replaced by recorders): layout calls Cell::layout once per cell, in order, "
                   "with the constraint's maximum width and the text's own wrap flag and reports the measured size clamped to the constraint; render writes every cell once, in order, through a writer carrying the same wrap flag. "
-                  "The glyph fallback path of put_cell, Cell::size (unicode-width / glyph / image geometry), the generic Utf8CellWriter loop, the escape-sequence automaton behind TTYCellWriter (its forwarding loop is proved in unit ttywriter for any decoder that makes progress) and "
+                  "Cell::size (Kani): every character cell is one row high and at most three columns wide (complete); a glyph written as its fallback text measures the sum of the display widths of its fallback characters (bounded: one fixed text). "
+                  "The glyph fallback path of put_cell, Cell::size for glyphs with glyph support (unicode-width / glyph / image geometry), the generic Utf8CellWriter loop, the escape-sequence automaton behind TTYCellWriter (its forwarding loop is proved in unit ttywriter for any decoder that makes progress) and "
                   "Text::layout/render agreement ('every printable cell exactly once in reading order') are NOT decided.",
     "level_note": "Cell::size is an uninterpreted function; Face/Image/Glyph/ViewContext/Utf8Decoder-in-writer are opaque stand-ins (N18); the glyph-fallback prelude of put_cell is cut off by precondition (N16); SurfaceMutView operations are used through the contracts proved in unit surface.",
     "assumptions": [
-        "Cell::size is uninterpreted in the layout units; of its three arms the image arm (Image::size_cells) is proved in unit imagecells, the character arm (unicode-width) and the glyph arm are not; coordinates are below 2^24 and strides/start below 2^32 (screen-sized), so sums cannot overflow",
+        "Cell::size is uninterpreted in the layout units; of its three arms the image arm (Image::size_cells) is proved in unit imagecells, the character arm is covered for every char by c09_char_cell_size (1 row, <= 3 columns), the glyph-fallback arm on one fixed fallback text (bounded; Glyph::fallback_str stubbed, the glyph itself a placeholder allocation); coordinates are below 2^24 and strides/start below 2^32 (screen-sized), so sums cannot overflow",
         "put_cell: the call does not take the glyph-fallback path (terminal has glyph support or the cell is not a glyph): precondition; that path recurses through a closure over str::chars and is outside the dialect",
         "put_cell: SurfaceMutView::{shape,size,get_mut,data_mut} are specified by the contracts that unit surface proves for the Surface/SurfaceMut default methods (get_mut added there); the forwarding impls for SurfaceMutView are trusted",
         "derived PartialEq on Position (`cursor_start != self.cursor`) has no specification in Verus: both outcomes are covered",
